@@ -123,7 +123,20 @@ func cryptoOnFrame(fcnt uint32) string {
 	p.SetUplinkDataMIC(lorawan.LoRaWAN1_1, 0, 1, 2, k, k)
 	b, _ := p.MarshalBinary()
 	ok, _ := p.ValidateUplinkDataMIC(lorawan.LoRaWAN1_1, 0, 1, 2, k, k)
-	return fmt.Sprintf("%x/%v", b, ok)
+	// FOpts encryption and a join-accept through MIC, encryption and decryption with a thread-specific key
+	q := lorawan.PHYPayload{MHDR: lorawan.MHDR{MType: lorawan.UnconfirmedDataDown}, MACPayload: &lorawan.MACPayload{
+		FHDR: lorawan.FHDR{DevAddr: lorawan.DevAddr{1, 2, 3, 4}, FCnt: fcnt, FOpts: []lorawan.Payload{&lorawan.MACCommand{CID: lorawan.DevStatusReq}}}}}
+	q.EncryptFOpts(k)
+	qb, _ := q.MarshalBinary()
+	jk := k
+	jk[0] = byte(fcnt)
+	ja := lorawan.PHYPayload{MHDR: lorawan.MHDR{MType: lorawan.JoinAccept}, MACPayload: &lorawan.JoinAcceptPayload{JoinNonce: lorawan.JoinNonce(fcnt & 0xFFFFFF), HomeNetID: lorawan.NetID{1, 2, 3}, DevAddr: lorawan.DevAddr{1, 2, 3, 4}, RXDelay: 1}}
+	ja.SetDownlinkJoinMIC(lorawan.JoinRequestType, lorawan.EUI64{1}, 7, jk)
+	ja.EncryptJoinAcceptPayload(jk)
+	jb, _ := ja.MarshalBinary()
+	derr := ja.DecryptJoinAcceptPayload(jk)
+	jok, _ := ja.ValidateDownlinkJoinMIC(lorawan.JoinRequestType, lorawan.EUI64{1}, 7, jk)
+	return fmt.Sprintf("%x/%v/%x/%x/%v/%v", b, ok, qb, jb, derr, jok)
 }
 
 func c10Threads() []vs.Thread {
